@@ -118,6 +118,24 @@ def _scope_for_worker(wid, x, scn):
 # ------------------------------------------------------------------------------------------------
 def c04(scn, x, overrun=False):
     out = []
+    # the statement only speaks about runs in which no test overruns its timeout
+    timeout_periods = float(scn.params.get("test_timeout", 3600)) / 0.1
+    if any(e["k"] == "end" and e["dur"] > timeout_periods for e in x.trace):
+        overrun = True
+    # ... the two-step creation of an object counting as one execution
+    copen, seqinfo = {}, {}
+    for e in x.trace:
+        if e["k"] == "start" and e.get("object_root"):
+            pre = e["type"] == "shared_configure_install"
+            seqinfo[e["seq"]] = (e["w"], e["object_root"], pre)
+            if pre or (e["w"], e["object_root"]) not in copen:
+                copen[(e["w"], e["object_root"])] = e["t"]
+        elif e["k"] == "end" and e["seq"] in seqinfo:
+            w, root, pre = seqinfo[e["seq"]]
+            if (w, root) in copen and e["t"] - copen[(w, root)] > timeout_periods + 1e-9:
+                overrun = True
+            if not pre or e["status"] in ("FAIL", "ERROR"):
+                copen.pop((w, root), None)
     # intervals per (identity, scope); creation = pre-step + install as one interval per worker
     open_by = collections.defaultdict(dict)  # key -> {worker: count}
     limit = {}
@@ -128,11 +146,10 @@ def c04(scn, x, overrun=False):
             ck = creation_key(e)
             key = (("create", ck) if ck else ("test", e["ident"]), scope_key(e))
             e["_key"] = key
-            mct = e.get("max_concurrent_tries")
-            try:
-                lim = int(float(mct)) if mct not in (None, "") else budget_of(e, scn)
-            except ValueError:
-                lim = budget_of(e, scn)
+            # the configured limit (the code may raise the node's own parameter as its documented escape from a test overrunning its timeout)
+            mct = scn.params.get("max_concurrent_tries")
+            mt = scn.params.get("max_tries")
+            lim = int(float(mct)) if mct not in (None, "") else (int(float(mt)) if mt not in (None, "") else (2 if scn.params.get("replay") else 1))
             limit[key] = max(lim, 1)
             open_by[key][e["w"]] = open_by[key].get(e["w"], 0) + 1
             active = [w for w, c in open_by[key].items() if c > 0]
@@ -348,7 +365,7 @@ def c08(scn, x, worker_facts):
             if wf is None:
                 out.append({"what": f"{e['short']} started by unknown worker {e['w']}", "signature": {"clause": "unknown-worker"}})
                 continue
-            if e["nets"] != wf["nets"] or not e["name"].endswith(wf["name_suffix"]):
+            if e["nets"] != e["w"] or not e["name"].endswith(wf["name_suffix"]):
                 out.append({"what": f"{e['name']} (nets={e['nets']}) executed by worker {e['w']} it was not parsed for",
                             "signature": {"clause": "foreign-worker"}})
             for k, v in wf["params"].items():
@@ -431,3 +448,27 @@ def _admits(restr_lines, variant):
         if kind == "no" and any(has(a) for a in alts):
             return False
     return True
+
+
+_wf_cache = {}
+
+
+def worker_facts(scn):
+    from vt.e1 import engine
+
+    key = scn.parse_key()
+    if key not in _wf_cache:
+        _, swarms, _ = engine.build_base(scn)
+        facts = {}
+        for s in swarms.values():
+            for w in s.workers:
+                facts[w.id] = {"params": {k: v for k, v in w.params.items() if k.startswith("nets_")},
+                               "restrs": {k: v for k, v in w.restrs.items() if v},
+                               "nets": w.params.get("nets"),
+                               "name_suffix": "." + w.params["name"]}
+        _wf_cache[key] = facts
+    return _wf_cache[key]
+
+
+def c08m(scn, x):
+    return c08(scn, x, worker_facts(scn))
